@@ -189,6 +189,18 @@ def dist_family(tag, per_pair, n_triples, extra_seed=None, extra=0):
         lay = [dist_mapping(rng, DIST_FROMS[a], 0), dist_mapping(rng, DIST_FROMS[b], 1), dist_mapping(rng, DIST_FROMS[cc], 2)]
         mh = 4 if max(len(DIST_FROMS[a]), len(DIST_FROMS[b]), len(DIST_FROMS[cc])) >= 4 else 3
         jobs.append(job("%s-3-%d" % (tag, c), lay, keys=KEYS_DIST, maxheld=mh, rot=c, rots=DIST_ROTATIONS))
+    # the same trigger listed twice with a different mapping on the same final key in between (an override
+    # further down the file): the LAST listing must win whatever sits between the two
+    c = 0
+    for fi, f in enumerate(DIST_FROMS):
+        for gi, g in enumerate(DIST_FROMS):
+            if fi == gi or f[-1] != g[-1]:
+                continue
+            rng = det_rng(tag, "dup", fi, gi)
+            lay = [dist_mapping(rng, f, 0), dist_mapping(rng, g, 1), dist_mapping(rng, f, 2)]
+            mh = 4 if max(len(f), len(g)) >= 4 else 3
+            jobs.append(job("%s-dup-%d" % (tag, c), lay, keys=KEYS_DIST, maxheld=mh, rot=c, rots=DIST_ROTATIONS))
+            c += 1
     if extra_seed is not None:
         rng = det_rng(tag, "seeded", extra_seed)
         for c in range(extra):
